@@ -290,6 +290,11 @@ def run_one_impl(root, c, timeout):
         for name in c["files"]:
             os.chmod(os.path.join(root, name), 0o644)
     cmd = [C.RASH] + c.get("rash_args", []) + ["--output", "raw", os.path.join(root, c.get("script", "main.rh"))] + c.get("argv", [])
+    if c.get("inline"):
+        # the same script given on the command line (-s / --script); the file name only names it
+        text = open(os.path.join(root, c.get("script", "main.rh"))).read()
+        os.rename(os.path.join(root, c.get("script", "main.rh")), os.path.join(root, "moved-away"))
+        cmd = [C.RASH] + c.get("rash_args", []) + ["--output", "raw", c["inline"], text, os.path.join(root, c.get("script", "main.rh"))] + c.get("argv", [])
     env = dict(os.environ)
     env.update(c.get("env", {}))
     try:
